@@ -250,7 +250,7 @@ impl Grid for Status {
     }
 }
 
-#[derive(Clone, PartialEq, Debug, DbValue, DbTypeMarker, DbSerialize)]
+#[derive(Clone, PartialEq, Debug, Default, DbValue, DbTypeMarker, DbSerialize)]
 pub struct Attribute {
     pub name: String,
     pub value: String,
@@ -414,5 +414,149 @@ pub mod user {
         pub db_id: Option<DbId>,
         pub gv: GenericValue<u64>,
         pub gs: GenericValue<String>,
+    }
+
+    // ---- every field attribute crossed with every field shape ---------------
+    // (shapes: scalar, float, String, Vec<T>, Option<T>, Option<String>,
+    //  Option<Vec<T>>, custom DbValue struct, custom DbValue enum, Vec<custom>,
+    //  Option<custom>)
+
+    /// `rename` on every shape
+    #[derive(DbType, Clone, Debug)]
+    pub struct RenamedShapes {
+        pub db_id: Option<DbId>,
+        #[agdb(rename = "r_scalar")]
+        pub scalar: u64,
+        #[agdb(rename = "r_float")]
+        pub float: f64,
+        #[agdb(rename = "r_string")]
+        pub string: String,
+        #[agdb(rename = "r_vec")]
+        pub vec: Vec<i64>,
+        #[agdb(rename = "r_opt")]
+        pub opt: Option<u64>,
+        #[agdb(rename = "r_opt_string")]
+        pub opt_string: Option<String>,
+        #[agdb(rename = "r_opt_vec")]
+        pub opt_vec: Option<Vec<i64>>,
+        #[agdb(rename = "r_custom")]
+        pub custom: Attribute,
+        #[agdb(rename = "r_enum")]
+        pub status: Status,
+        #[agdb(rename = "r_vec_custom")]
+        pub vec_custom: Vec<Status>,
+        #[agdb(rename = "r_opt_custom")]
+        pub opt_custom: Option<Attribute>,
+    }
+
+    /// two fields renamed to each other's identifier (a lookup by identifier
+    /// instead of by the renamed key finds the WRONG value, not nothing), with
+    /// a plain `DbId` id field
+    #[derive(DbType, Clone, Debug, PartialEq)]
+    pub struct RenameSwap {
+        pub db_id: DbId,
+        #[agdb(rename = "second")]
+        pub first: u64,
+        #[agdb(rename = "first")]
+        pub second: Option<u64>,
+        #[agdb(rename = "fourth")]
+        pub third: Vec<String>,
+        #[agdb(rename = "third")]
+        pub fourth: Option<Vec<String>>,
+    }
+
+    /// `skip` on every shape (plus skip together with rename), `Option<QueryId>` id
+    #[derive(DbType, Clone, Debug, PartialEq)]
+    pub struct SkippedShapes {
+        pub db_id: Option<QueryId>,
+        pub kept: String,
+        #[agdb(skip)]
+        pub scalar: u64,
+        #[agdb(skip)]
+        pub string: String,
+        #[agdb(skip)]
+        pub vec: Vec<i64>,
+        #[agdb(skip)]
+        pub opt: Option<u64>,
+        #[agdb(skip)]
+        pub opt_vec: Option<Vec<i64>>,
+        #[agdb(skip)]
+        pub custom: Attribute,
+        #[agdb(skip)]
+        pub status: Status,
+        #[agdb(skip)]
+        pub vec_custom: Vec<Status>,
+        #[agdb(skip, rename = "never_stored")]
+        pub renamed: i64,
+        pub kept_opt: Option<i64>,
+    }
+
+    #[derive(DbType, Clone, Debug, PartialEq)]
+    pub struct InnerRenamed {
+        #[agdb(rename = "ir_n")]
+        pub n: u64,
+        #[agdb(rename = "ir_o")]
+        pub o: Option<String>,
+        pub v: Vec<u64>,
+    }
+    #[derive(DbType, Clone, Debug, PartialEq)]
+    pub struct InnerCustom {
+        pub st: Status,
+        pub ost: Option<Status>,
+        pub sts: Vec<Status>,
+        #[agdb(skip)]
+        pub tmp: u64,
+    }
+    #[derive(DbType, Clone, Debug, PartialEq)]
+    pub struct InnerLeaf {
+        pub leaf_name: String,
+        pub leaf_list: Vec<i64>,
+    }
+    #[derive(DbType, Clone, Debug, PartialEq)]
+    pub struct InnerNest {
+        #[agdb(flatten)]
+        pub deep: InnerLeaf,
+        #[agdb(rename = "nest_x")]
+        pub x: i64,
+    }
+
+    /// `flatten` of nested types that themselves use rename / Option / skip /
+    /// custom values / a further flatten
+    #[derive(DbType, Clone, Debug, PartialEq)]
+    pub struct FlattenShapes {
+        pub db_id: Option<DbId>,
+        pub own: String,
+        #[agdb(flatten)]
+        pub a: InnerRenamed,
+        #[agdb(flatten)]
+        pub b: InnerCustom,
+        #[agdb(flatten)]
+        pub c: InnerNest,
+    }
+
+    /// flatten of nested types WITHOUT optional fields (typed key selection is used)
+    #[derive(DbType, Clone, Debug, PartialEq)]
+    pub struct FlattenPlain {
+        pub db_id: Option<DbId>,
+        #[agdb(rename = "own_renamed")]
+        pub own: u64,
+        #[agdb(flatten)]
+        pub c: InnerNest,
+        #[agdb(flatten)]
+        pub p: Plain,
+    }
+
+    /// the element derive with rename / Option / skip / flatten together
+    #[derive(DbElement, Clone, Debug, PartialEq)]
+    pub struct ElemShapes {
+        pub db_id: Option<DbId>,
+        #[agdb(rename = "e_name")]
+        pub name: String,
+        #[agdb(rename = "e_opt")]
+        pub opt: Option<i64>,
+        #[agdb(skip)]
+        pub cache: Vec<u64>,
+        #[agdb(flatten)]
+        pub inner: InnerLeaf,
     }
 }
